@@ -418,13 +418,7 @@ func (s *Server) attachClient(cl *Client, listener string) error {
 
 	cl.ParseConnect(listener, pk)
 	if atomic.LoadInt64(&s.Info.ClientsConnected) >= s.Options.Capabilities.MaximumClients {
-		if cl.Properties.ProtocolVersion < 5 {
-			s.SendConnack(cl, packets.ErrServerUnavailable, false, nil)
-		} else {
-			s.SendConnack(cl, packets.ErrServerBusy, false, nil)
-		}
-
-		return packets.ErrServerBusy
+		return s.refuseClientLimit(cl)
 	}
 	verifPoint("attach.afterLimitCheck")
 
@@ -452,7 +446,9 @@ func (s *Server) attachClient(cl *Client, listener string) error {
 	}
 
 	verifPoint("attach.beforeIncr")
-	atomic.AddInt64(&s.Info.ClientsConnected, 1)
+	if !s.reserveClientSlot() { // the early check above is only a shortcut: other attempts may have passed it too
+		return s.refuseClientLimit(cl)
+	}
 	defer atomic.AddInt64(&s.Info.ClientsConnected, -1)
 
 	s.hooks.OnSessionEstablish(cl, pk)
@@ -498,6 +494,31 @@ func (s *Server) attachClient(cl *Client, listener string) error {
 	}
 
 	return err
+}
+
+// refuseClientLimit refuses a connection attempt because the maximum number of clients is connected.
+func (s *Server) refuseClientLimit(cl *Client) error {
+	if cl.Properties.ProtocolVersion < 5 {
+		s.SendConnack(cl, packets.ErrServerUnavailable, false, nil)
+	} else {
+		s.SendConnack(cl, packets.ErrServerBusy, false, nil)
+	}
+
+	return packets.ErrServerBusy
+}
+
+// reserveClientSlot atomically counts a new connection in Info.ClientsConnected unless the
+// maximum number of clients is already connected.
+func (s *Server) reserveClientSlot() bool {
+	for {
+		n := atomic.LoadInt64(&s.Info.ClientsConnected)
+		if n >= s.Options.Capabilities.MaximumClients {
+			return false
+		}
+		if atomic.CompareAndSwapInt64(&s.Info.ClientsConnected, n, n+1) {
+			return true
+		}
+	}
 }
 
 // readConnectionPacket reads the first incoming header for a connection, and if
